@@ -170,7 +170,7 @@ def gen_op(rng, k, recipe, iterative, allow, p_each):
             kinds = ["targets_only"]
         return {"op": k, "kind": rng.choice(kinds), "seed": rng.randrange(1 << 30), "n": rng.randint(3, 8), "strict": rng.random() < 0.5}
     if k == "load_state_dict":
-        return {"op": k, "src": rng.choice(["rand", "snap"]), "seed": rng.randrange(1 << 30), "which": rng.randrange(4)}
+        return {"op": k, "src": rng.choice(["rand", "snap"]), "seed": rng.randrange(1 << 30), "which": rng.randrange(4), "scope": rng.choice(["all", "all", "likelihood", "kernel", "one"]), "pick": rng.randrange(1 << 16)}
     if k == "fantasize":
         return {"op": k, "seed": rng.randrange(1 << 30), "m": rng.randint(1, 3), "bundle": bundles.gen_bundle(rng, recipe["n"] + 2, allow=allow, p_each=p_each * 0.5)}
     if k == "backward":
@@ -519,6 +519,21 @@ def step(ctx, i, op):
             donor = zoo.build_exact(recipe, data=_cur_data(M, recipe))
             zoo.randomise_parameters(donor, op["seed"])
             sd = donor.state_dict()
+            scope = op.get("scope", "all")
+            if scope != "all":
+                # a state that differs from the current one only in part (one module's subtree, or one tensor)
+                cur = {kk: v.detach().clone() for kk, v in M.state_dict().items()}
+                pkeys = sorted(n for n, _ in M.named_parameters())
+                if scope == "likelihood":
+                    chosen = [kk for kk in pkeys if kk.startswith("likelihood.")]
+                elif scope == "kernel":
+                    chosen = [kk for kk in pkeys if kk.startswith("covar_module.")]
+                else:
+                    chosen = [pkeys[op.get("pick", 0) % len(pkeys)]]
+                for kk in chosen:
+                    if kk in sd and sd[kk].shape == cur[kk].shape:
+                        cur[kk] = sd[kk].detach().clone()
+                sd = cur
         M.load_state_dict(sd)
         ctx.mutated_since_obs = True
     elif k == "fantasize":
